@@ -187,6 +187,14 @@ def D6(m, R):
     last = rets[-1] if rets else None
     if last is not None and isinstance(last.value, ast.Call) and seen['fwd'] and seen['rev']:
         lc = seen['fwd'][2]
+        # a plain copy of the left count may be what is passed on
+        lsame = {lc}
+        for _ in range(3):
+            for n in f.walk():
+                if isinstance(n, ast.Assign) and isinstance(n.targets[0], ast.Name) and isinstance(n.value, ast.Name) and n.value.id in lsame:
+                    lsame.add(n.targets[0].id)
+        if isinstance(last.value, ast.Call) and last.value.args and isinstance(last.value.args[0], ast.Name) and last.value.args[0].id in lsame:
+            lc = last.value.args[0].id
         rv = seen['rev']
         rc = rv[2]
         if rv[3] == 1:
